@@ -333,6 +333,9 @@ pub fn session_for(identity: &str) -> SessionData {
 /// When set (by the C07 tracer in its child process) the provider raises SIGSTOP just before its
 /// answer becomes ready: the start marker of the traced window.
 pub static TRACE_MARK: std::sync::atomic::AtomicBool = std::sync::atomic::AtomicBool::new(false);
+/// When set (by the C07 tracer in its child process) the provider raises SIGUSR1 at its first readiness
+/// poll: the end marker of the *front* window (entry of the validation → first contact with the provider).
+pub static TRACE_FRONT: std::sync::atomic::AtomicBool = std::sync::atomic::AtomicBool::new(false);
 
 pub struct AnswerFuture {
     pending: u32,
@@ -362,6 +365,9 @@ impl Service<GetSigningKeyRequest> for Provider {
     type Future = AnswerFuture;
 
     fn poll_ready(&mut self, cx: &mut Context<'_>) -> Poll<Result<(), BoxError>> {
+        if TRACE_FRONT.load(std::sync::atomic::Ordering::SeqCst) {
+            unsafe { libc::raise(libc::SIGUSR1) };
+        }
         let mut st = self.0.lock().unwrap();
         st.ready_polls += 1;
         let (pr, err) = match st.queue.front() {
